@@ -79,6 +79,44 @@ class State:
         self.endmsg = ""
 
 
+class NraSolver:
+    """push/pop/add/check facade that answers every check() with a fresh one-shot QF_NRA (nlsat) solver;
+    used in Real mode, where z3's incremental solver returns 'unknown' on the non-linear queries"""
+
+    def __init__(self, timeout_ms):
+        self.stack = [[]]
+        self.timeout = timeout_ms
+        self.last = None
+
+    def push(self):
+        self.stack.append([])
+
+    def pop(self):
+        self.stack.pop()
+
+    def add(self, *cs):
+        self.stack[-1].extend(cs)
+
+    def set(self, *a, **k):
+        pass
+
+    def check(self):
+        # bit-vector leftovers (zext of comparison results etc.) are blasted to booleans first
+        s = z3.Then("simplify", "propagate-values", "bit-blast", "simplify", "qfnra-nlsat").solver()
+        s.set("timeout", self.timeout)
+        for lvl in self.stack:
+            for c in lvl:
+                s.add(c)
+        self.last = s
+        return s.check()
+
+    def model(self):
+        return self.last.model()
+
+    def reason_unknown(self):
+        return self.last.reason_unknown() if self.last is not None else ""
+
+
 class WorkList:
     """states ordered by priority class (= number of non-minimal count choices taken so far), LIFO inside a
     class: the slice with all counts minimal is explored exhaustively first, then one count raised, ..."""
@@ -143,6 +181,27 @@ def boolz(v):
             return v
         return v == z3.BitVecVal(1, 1)
     return z3.BoolVal(bool(v))
+
+
+def to_real(v):
+    """Real-mode value of a float operand (exact: python floats are dyadic rationals)"""
+    if isinstance(v, tuple):
+        if v[0] == "real":
+            return v[1]
+        raise NotImplementedError("bit-level float in Real mode")
+    if isinstance(v, float):
+        if v != v or v in (math.inf, -math.inf):
+            raise NotImplementedError("NaN/Inf constant in Real mode")
+        from fractions import Fraction
+        fr = Fraction(v)
+        return z3.RealVal("%d/%d" % (fr.numerator, fr.denominator))
+    if isinstance(v, int):
+        return z3.RealVal(v)
+    raise NotImplementedError("operand in Real mode: %r" % (v,))
+
+
+def is_real(v):
+    return isinstance(v, tuple) and v[0] == "real"
 
 
 def f32round(x):
@@ -264,6 +323,8 @@ class Engine:
         self.throw_is_violation = False
         self.huge_alloc_is_violation = False
         self.replay = None
+        self.real_mode = False
+        self.real_timeout_ms = 120000
         self.samples = []
         self.max_samples = 6
         self.trace_ends = bool(os.environ.get("TRACEENDS"))
@@ -673,6 +734,11 @@ class Engine:
 
     def assemble(self, cells, n, t):
         c0 = cells[0]
+        if type(c0) is tuple and c0[0] == "f":
+            # Real-mode float cell group: must be read back whole
+            if all(type(c) is tuple and c[0] == "f" and c[1] is c0[1] and c[2] == i for i, c in enumerate(cells)) and c0[3] == n:
+                return ("real", c0[1])
+            raise NotImplementedError("partial access to a Real-mode float")
         if all(type(c) is int for c in cells):
             v = int.from_bytes(bytes(cells), "little")
             k = t[0]
@@ -767,6 +833,8 @@ class Engine:
         if isinstance(v, tuple) and v[0] == "fbits":
             e = v[1]
             return [("e", e, i) for i in range(n)]
+        if isinstance(v, tuple) and v[0] == "real":
+            return [("f", v[1], i, n) for i in range(n)]
         if is_sym(v):
             if z3.is_bool(v):
                 v = bv(v, 8)
@@ -842,6 +910,11 @@ class Engine:
             except z3.Z3Exception:
                 pass
         t0 = time.time()
+        if self.real_mode and not isinstance(self.solver, NraSolver):
+            # non-linear real arithmetic: one-shot queries to the nlsat-based QF_NRA solver (the incremental
+            # default solver answers "unknown" on these)
+            self.solver = NraSolver(self.real_timeout_ms)
+            self.sstack = []
         self.sync(st)
         s = self.solver
         s.push()
@@ -853,7 +926,7 @@ class Engine:
         self.stats["queries"] += 1
         self.stats["qtime"] += time.time() - t0
         if r == z3.unknown:
-            raise PathEnd("unknown", "solver unknown")
+            raise PathEnd("unknown", "solver unknown: " + str(s.reason_unknown())[:100])
         if r == z3.unsat:
             # (satisfiable?, expr kept alive so that the AST id is not recycled, decided=valid-or-unsat)
             known[cid] = (False, cond, True)
@@ -1324,7 +1397,15 @@ class Engine:
             vals = []
             for (nm, w, e) in st.symlog:
                 v = m.eval(e, model_completion=True)
-                vals.append([nm, w, v.as_long()])
+                if w == "real":
+                    # Real-mode input: the native twin receives the nearest single-precision float
+                    try:
+                        fv = float(v.numerator_as_long()) / float(v.denominator_as_long())
+                    except Exception:
+                        fv = float(v.approx(12).numerator_as_long()) / float(v.approx(12).denominator_as_long())
+                    vals.append([nm, 32, struct.unpack("<I", struct.pack("<f", f32round(fv)))[0]])
+                else:
+                    vals.append([nm, w, v.as_long()])
             inp = []
             for c in st.inp0:
                 if type(c) is int:
@@ -1529,7 +1610,13 @@ class Engine:
             elif op == "unreachable":
                 raise self.violation(st, "unreachable executed", aid="unreachable")
             elif op in ("fadd", "fsub", "fmul", "fdiv", "fcmp", "fneg", "fptoui", "fptosi", "uitofp", "sitofp", "fpext", "fptrunc"):
-                env[I.dst] = self.fop(st, op, I, [self.val(fr, x) for x in a])
+                vals = [self.val(fr, x) for x in a]
+                if vals and isinstance(vals[0], list):
+                    # vector float op: element-wise
+                    n = len(vals[0])
+                    env[I.dst] = [self.fop(st, op, _ScalarView(I), [(v[k] if isinstance(v, list) else v) for v in vals]) for k in range(n)]
+                else:
+                    env[I.dst] = self.fop(st, op, I, vals)
             elif op == "extractelement":
                 v = self.val(fr, a[0])
                 env[I.dst] = v[self.val(fr, a[1])]
@@ -1649,6 +1736,8 @@ class Engine:
                 return z3.If(c, boolz(x), boolz(y))
             return z3.If(c, bv(x, w), bv(y, w))
         if t[0] in ("float", "double"):
+            if (isinstance(x, tuple) and x[0] == "real") or (isinstance(y, tuple) and y[0] == "real"):
+                return ("real", z3.If(c, to_real(x), to_real(y)))
             return ("fbits", z3.If(c, self.fbits(x, t), self.fbits(y, t)))
         if t[0] in ("vector", "array"):
             return [self.ite(st, work, c, xi, yi, t[2]) for xi, yi in zip(x, y)]
@@ -1717,7 +1806,55 @@ class Engine:
             return [self.bitcast(e, ti[2], to[2]) for e in v]
         raise NotImplementedError("bitcast %s -> %s" % (ti, to))
 
+    def fop_real(self, st, op, I, vals):
+        """Real mode (C20): float arithmetic over the reals, no rounding"""
+        if op in ("uitofp", "sitofp"):
+            x = vals[0]
+            if is_sym(x):
+                w = I.x[1]
+                xi = z3.BV2Int(x, op == "sitofp")
+                return ("real", z3.ToReal(xi))
+            return ("real", z3.RealVal(to_signed(x, I.x[1]) if op == "sitofp" else x))
+        if op in ("fpext", "fptrunc"):
+            return ("real", to_real(vals[0]))
+        if op == "fneg":
+            return ("real", -to_real(vals[0]))
+        X, Y = to_real(vals[0]), to_real(vals[1])
+        if op == "fadd":
+            return ("real", X + Y)
+        if op == "fsub":
+            return ("real", X - Y)
+        if op == "fmul":
+            return ("real", z3.simplify(X * Y))
+        if op == "fdiv":
+            self.stats["real_div"] = self.stats.get("real_div", 0) + 1
+            # division by a possibly-zero value has no meaning over the reals: the path is restricted to Y != 0
+            nz = Y != 0
+            if not self.sat(st, nz):
+                raise PathEnd("infeasible")
+            if self.sat(st, z3.Not(nz)):
+                self.add_pc(st, nz)
+                self.stats["real_div_nonzero_assumed"] = self.stats.get("real_div_nonzero_assumed", 0) + 1
+            # q = X / Y encoded as a fresh variable with q * Y == X (keeps the NRA problem polynomial)
+            if z3.is_rational_value(Y):
+                return ("real", z3.simplify(X / Y))
+            self.symcount += 1
+            q = z3.Real("div_%d" % self.symcount)
+            self.add_pc(st, q * Y == X)
+            return ("real", q)
+        if op == "fcmp":
+            p = I.x
+            base = {"eq": X == Y, "gt": X > Y, "ge": X >= Y, "lt": X < Y, "le": X <= Y, "ne": X != Y}
+            if p in ("ord", "true"):
+                return 1
+            if p in ("uno", "false"):
+                return 0
+            return base[p[1:]]
+        raise NotImplementedError("Real-mode float op " + op)
+
     def fop(self, st, op, I, vals):
+        if self.real_mode and (any(is_real(v) for v in vals) or (op in ("uitofp", "sitofp") and is_sym(vals[0]))):
+            return self.fop_real(st, op, I, vals)
         if all(isinstance(v, (int, float)) for v in vals):
             x = vals[0]
             single = I.ty[0] == "float"
@@ -1809,6 +1946,17 @@ def I_w(x, y):
 
 class Frame:
     pass
+
+
+class _ScalarView:
+    """instruction view with the element type of a vector instruction (for element-wise float ops)"""
+
+    def __init__(self, I):
+        self.op = I.op
+        self.x = I.x[2] if isinstance(I.x, tuple) and I.x and I.x[0] == "vector" else I.x
+        self.ty = I.ty[2] if I.ty[0] == "vector" else I.ty
+        self.a = I.a
+        self.dst = I.dst
 
 
 # ---------------- intrinsics / models
